@@ -303,6 +303,8 @@ def memo_table(ck, items, tier):
     if corrupted and rejected < len(corrupted):
         raise tlc.MachineryError(f'MemoTrace binding self-test: only {rejected} of {len(corrupted)} corrupted traces were rejected: '
                                  f"{ck.notes.get('memo_corruptions_not_rejected')}")
+    import shutil
+    shutil.rmtree(d, ignore_errors=True)
     if not ck.violations and (nacc < 200 or hits < 50):
         raise tlc.MachineryError(f'only {nacc} memo executions validated ({hits} hits): vacuous')
 
